@@ -17,6 +17,15 @@ import (
 type lane struct {
 	name   string
 	inputs []inputSpec
+	stack  string // "default": the children keep Go's own limit for goroutine stacks (1 GB)
+}
+
+func laneRank(name string) int {
+	switch {
+	case name == "rules", strings.Contains(name, "-deep"):
+		return 0
+	}
+	return 1
 }
 
 type laneStats struct {
@@ -37,7 +46,12 @@ func TestC19(t *testing.T) {
 		"templates, matchers; content-less documents such as `---`, `---` plus comment header, `~`, `{}`; blanks / comments only), path expressions with escape characters at the edges (as documents and " +
 		"as values of every `path` node), truncations (also of a hand-written file that starts with `---` and a comment header and ends in an escaped wildcard: every offset of the header and of the last " +
 		"expression) and bit flips; remote responses: type confusion of every node, truncations, malformed JSON, HTTP-level faults, key confusion, oversized; requests: " +
-		"malformed tokens (1-6 segments, base64/JSON/claim confusion), forwarded headers, raw TCP/TLS/HTTP2 garbage, bad chunking, oversized lines to the HTTP, TLS and gRPC ports. Each file " +
+		"malformed tokens (1-6 segments, base64/JSON/claim confusion), forwarded headers, raw TCP/TLS/HTTP2 garbage, bad chunking, oversized lines to the HTTP, TLS and gRPC ports. " +
+		"Depth- and size-extreme JSON (nested lists / objects of 1e3, 1e5, 1e6 and 4e6 levels, lists of as many elements; documents of up to ~10 MB, generated in the child from a recipe): in the header and the " +
+		"payload segment of a token handed over as Bearer header, query parameter, form body parameter and JSON body member to the jwt and oauth2_introspection authenticators, as request body per content type " +
+		"(JSON, YAML, form), and as / inside the document of every remote endpoint (alone, as additional member, in place of a member). A second kind of rule lane runs against a file_system provider with " +
+		"env_vars_enabled in a process with a few environment variables: every expansion form of drone/envsubst (plain, case, length, defaults, replace, trim, substring with position / length at and beyond the " +
+		"edges of the value, negative, oversized, non-numeric), unfinished expressions and every truncation inside an expression, once in the rule id and - where the expansion is predictable - inside the probed route. Each file " +
 		"step is one system call = one file event = one exact content, journaled before it is applied. A case is non-trivial if heimdall demonstrably consumed the input (logged reload " +
 		"attempt, processed rule event proven by a later sentinel rule file, remote endpoint asked, request answered).")
 	r.Assume("the trust store is only read when a mechanism is created (this tree has no trust store hot reload): it is enumerated through authenticators.CreatePrototype",
@@ -48,7 +62,12 @@ func TestC19(t *testing.T) {
 			"is a mapping with a non-empty `rules` list (a rule set, valid or not, that may lack the probed route); a document that defines nothing (`---`, `~`, `null`, `{}`, a scalar, a list) is classified as "+
 			"the unchanged tree's parser does: not a rule set, the previous version stays",
 		"fsnotify errors are injected by a send on the Errors channel of the *fsnotify.Watcher held by heimdall's secrets watcher (reached by reflection), which is what fsnotify itself does on IN_Q_OVERFLOW",
-		"the child lowers the maximum goroutine stack to 128 MB so that unbounded recursion ends the process quickly; the verdict (fatal stack overflow) is the same as with 1 GB")
+		"the child lowers the maximum goroutine stack to 128 MB so that unbounded recursion ends the process quickly; the verdict (fatal stack overflow) is the same as with 1 GB. The children of the "+
+			"lanes with depth-extreme documents keep Go's own limit (1 GB on 64 bit), because there the depth of the recursion is bounded by the input and the limit decides whether the process survives",
+		"how long heimdall may take for a document of several MB is not part of the statement: a depth- or size-extreme input that is not answered within the harness' patience is recorded "+
+			"(deep_documents_not_answered_within_patience, skipped_after_repeated_crash), larger documents for the same spot are skipped, and no verdict is derived; only the death of the process, a stopped watcher, "+
+			"lost state or a non-error status for a forged token are",
+		"the environment of a process is set by its operator: values of variables are not hostile input, the expressions in rule files are")
 
 	g := &gen{corpus: map[string][]byte{}, rng: r.Stream("c19-inputs"), thorough: r.Thorough()}
 	bases := g.buildKeyStoreCorpus()
@@ -69,6 +88,10 @@ func TestC19(t *testing.T) {
 	lanes = append(lanes, lane{name: "trust", inputs: g.trustLane()})
 	lanes = append(lanes, lane{name: "remote", inputs: g.remoteLane()})
 	lanes = append(lanes, lane{name: "request", inputs: g.requestLane()})
+	lanes = append(lanes, g.rulesEnvLane(), g.remoteDeepLane())
+	lanes = append(lanes, g.requestDeepLanes()...)
+	// the lanes that take longest start first (the generation order above fixes the inputs, not the schedule)
+	sort.SliceStable(lanes, func(i, j int) bool { return laneRank(lanes[i].name) < laneRank(lanes[j].name) })
 	if r.Thorough() {
 		// split the long sequential lanes so that they run side by side
 		var out []lane
@@ -94,7 +117,7 @@ func TestC19(t *testing.T) {
 				for _, l := range lanes {
 					for _, x := range l.inputs {
 						if x.Kind == kind && x.Name == name {
-							out = append(out, lane{name: l.name, inputs: []inputSpec{x}})
+							out = append(out, lane{name: l.name, inputs: []inputSpec{x}, stack: l.stack})
 						}
 					}
 				}
@@ -127,16 +150,20 @@ func TestC19(t *testing.T) {
 	r.Set("inputs_per_class", perClass)
 	r.Set("lanes", len(lanes))
 
-	mon := &monitor{r: r, corpus: g.corpus, corpusPath: corpusPath, breakerLimit: r.Pick(3, 5), breaker: map[string]int{}, skip: map[string]bool{}, skippedBy: map[string]string{}}
+	mon := &monitor{r: r, corpus: g.corpus, corpusPath: corpusPath, breakerLimit: r.Pick(3, 5), breaker: map[string]int{}, skip: map[string]bool{}, skippedBy: map[string]string{}, laneSec: map[string]float64{}}
 	var wg sync.WaitGroup
-	sem := make(chan struct{}, r.Pick(5, 6))
+	sem := make(chan struct{}, r.Pick(7, 7))
 	for i := range lanes {
 		wg.Add(1)
 		sem <- struct{}{}
 		go func(l lane) {
 			defer wg.Done()
 			defer func() { <-sem }()
+			t0 := time.Now()
 			mon.runLane(l)
+			mon.mu.Lock()
+			mon.laneSec[l.name] = float64(time.Since(t0).Milliseconds()) / 1000
+			mon.mu.Unlock()
 		}(lanes[i])
 	}
 	wg.Wait()
@@ -144,6 +171,7 @@ func TestC19(t *testing.T) {
 	r.Set("children", map[string]int{"spawned": mon.spawned, "died": mon.died})
 	r.Set("skipped_after_repeated_crash", mon.skippedBy)
 	r.Set("notes", mon.notes)
+	r.Set("lane_wall_seconds", mon.laneSec) // information only
 	if replaying {
 		r.End()
 	}
@@ -157,6 +185,10 @@ func TestC19(t *testing.T) {
 	r.Require("remote_faults_consumed", r.Counter("consumed_remote"), int64(r.Pick(200, 1000)))
 	r.Require("requests_sent", r.Counter("consumed_request"), int64(r.Pick(100, 200)))
 	r.Require("watcher_errors_injected", r.Counter("watcher_errors_injected"), 1)
+	r.Require("reload_attempts_"+kRulesEnv, r.Counter("reload_attempts_"+kRulesEnv), int64(r.Pick(100, 300)))
+	r.Require("env_expressions_observed_expanded_in_a_served_route", r.Counter("env_expressions_observed_expanded_in_a_served_route"), 20)
+	r.Require("deep_documents_handed_over_request", r.Counter("deep_documents_handed_over_"+kRequest), int64(r.Pick(40, 100)))
+	r.Require("deep_documents_handed_over_remote", r.Counter("deep_documents_handed_over_"+kRemote), int64(r.Pick(60, 150)))
 	r.Require("children_spawned", int64(mon.spawned), int64(len(lanes)))
 	r.End()
 }
@@ -174,6 +206,7 @@ type monitor struct {
 	spawned   int
 	died      int
 	notes     map[string]int
+	laneSec   map[string]float64
 }
 
 // trip is the circuit breaker: inputs that exercise the same spot (group) stop being applied after two
@@ -237,7 +270,7 @@ func (m *monitor) runLane(l lane) {
 		m.spawned++
 		m.mu.Unlock()
 		cr := r.RunChild("TestC19", "c19", map[string]string{
-			"BATCH": batchPath, "CORPUS": m.corpusPath, "START": fmt.Sprint(idx), "SKIP": m.skipList(), "MAX": fmt.Sprint(perChild),
+			"BATCH": batchPath, "CORPUS": m.corpusPath, "START": fmt.Sprint(idx), "SKIP": m.skipList(), "MAX": fmt.Sprint(perChild), "STACK": l.stack,
 		}, time.Duration(r.Pick(10, 40))*time.Minute)
 		results := readJSONLines[inResult](filepath.Join(cr.Dir, "results.jsonl"))
 		journal := readJSONLines[jEntry](filepath.Join(cr.Dir, "journal.jsonl"))
@@ -315,8 +348,11 @@ func (m *monitor) runLane(l lane) {
 		c := map[string]any{
 			"lane": l.name, "input": map[string]any{"seq": in.Seq, "kind": in.Kind, "class": in.Class, "name": in.Name, "base": in.Base, "op": in.Op, "off": in.Off, "bit": in.Bit, "meta": in.Meta},
 			"journal_last_entry": map[string]any{"step": last.Step, "note": last.Note, "index": last.Index},
-			"witness":            witness(content), "expected": "an error response or a logged, rejected reload; the process keeps running",
+			"witness":            witness(content), "generated": recipeOf(&in), "expected": "an error response or a logged, rejected reload; the process keeps running",
 			"observed": line, "stack": stack, "exit": cr.Exit,
+		}
+		if in.Kind == kRulesEnv {
+			c["environment"], c["provider"] = envForCase(), "file_system with watch and env_vars_enabled"
 		}
 		r.Violation(sig, fmt.Sprintf("process terminated by %s input %q (step %s): %s", in.Kind, in.Name, last.Step, line), c)
 		r.Case(fmt.Sprintf("%s/%s/%s", in.Kind, in.Class, in.Name), true)
@@ -346,6 +382,10 @@ func (m *monitor) account(res *inResult, inputs []inputSpec) (violated []string)
 	r.Count("liveness_probes_answered", res.Alive)
 	r.Count("rule_files_judged_after_silent_unload_or_replacement", res.ShapeChecks)
 	r.Count("watcher_errors_injected", res.WatcherErrors)
+	r.Count("env_expressions_observed_expanded_in_a_served_route", res.Expanded)
+	if res.Deep > 0 {
+		r.Count("deep_documents_handed_over_"+res.Kind, res.Deep)
+	}
 	if res.Observed {
 		r.Count("consumed_"+res.Kind, 1)
 	}
@@ -363,6 +403,15 @@ func (m *monitor) account(res *inResult, inputs []inputSpec) (violated []string)
 		}
 		if strings.HasPrefix(n, "envoy:") {
 			n = "envoy-check-answered"
+		}
+		if strings.HasPrefix(n, "deep-not-answered:") {
+			// deeper / larger documents for the same spot would only take longer: skipped and listed, no verdict
+			gkey := res.Kind + "/" + res.Class + "/" + strings.TrimPrefix(n, "deep-not-answered:")
+			m.mu.Lock()
+			m.skip[gkey] = true
+			m.skippedBy[gkey] = fmt.Sprintf("input %q was not answered within %s (no verdict about duration)", res.Name, deepPatience)
+			m.mu.Unlock()
+			r.Count("deep_documents_not_answered_within_patience", 1)
 		}
 		m.note(n)
 		if strings.HasPrefix(n, "valid-control-non-200") {
@@ -382,6 +431,9 @@ func (m *monitor) account(res *inResult, inputs []inputSpec) (violated []string)
 			"expected": "an error response or a logged, rejected reload; watchers keep running; the previously loaded state stays in effect"}
 		if in != nil && in.Kind != kRemote && in.Kind != kRequest {
 			c["witness"] = witness(in.materialize(m.corpus))
+		}
+		if in != nil && in.Kind == kRulesEnv {
+			c["environment"], c["provider"] = envForCase(), "file_system with watch and env_vars_enabled"
 		}
 		r.Violation(p.Sig, fmt.Sprintf("%s input %q: %s", res.Kind, res.Name, p.What), c)
 		violated = append(violated, p.Sig)
